@@ -113,6 +113,42 @@ PROPS = {
                  'differential run of store/load round trips on the real code, including churn during the backup through the item callback',
                  'encoding/json, bufio, os are parameters of the model; crc32 is generic in the theorems'],
     ),
+    'C13': dict(
+        modules=['NitroVerif.Props.C13', 'NitroVerif.Props.C13c'],
+        runs=[('skipseq', gens.gen_skipseq, 300, 20000)],
+        iruns=[('skipconc', gens.gen_skipconc, 150, 5000)],
+        level='proof',
+        level_text='Sequential part proved in full on a pointer-level heap model (C13_sequential: every script with every level request equals the ordered set; C13_delete_once). Concurrent part proved on the CAS-granularity model for any number of threads and all interleavings: C13_invariant, C13_updates_linearize (the abstract set changes only at a successful publish of an absent key or level-0 mark of a present node), C13_live_keys_distinct, C13_one_deleter, C13_reads_hit_partial, C13_reads_miss (a miss implies absence at an instant inside the call). PARTIAL: assembling the per-call linearization points into one total order for a whole history is not mechanised. Tie: regenerated tests/skeletons, scripted-level differential runs, steered schedules validated step by step against the executable model',
+        trusted=['Lean 4 kernel', 'tools/gofacts translation of findPath/helpDelete/softDelete/NewLevel tests and skeletons of findPath, Insert4, softDelete, deleteNode',
+                 'steered schedules at the skiplist yield points on the real list (user-managed memory), every trace validated against the model, final walk of all levels',
+                 'node ids are never recycled in the model (memory reuse is the subject of C04); unsafe pointer packing of node_amd64.go is not modelled',
+                 'the last composition step (per-call linearization points to a total order) is the standard argument, not mechanised'],
+    ),
+    'C14': dict(
+        modules=['NitroVerif.Props.C14', 'NitroVerif.Props.C14c'],
+        runs=[('skipseq', gens.gen_skipseq, 300, 20000), ('skipseq', gens.gen_builder, 150, 8000)],
+        iruns=[('skipconc', gens.gen_skipconc, 150, 5000)],
+        level='proof',
+        level_text='C14_wf_sequential and C14_wf_assemble (full well-formedness of all levels and statistics after every sequential history and after Assemble of any segments) proved on the pointer-level heap; C14_level0_chain_partial (level-0 chain sorted, reaches tail, contains every unmarked node) for every reachable state of the concurrent model. PARTIAL: upper levels and statistics after concurrent histories are checked by the walk after every steered run (no marked node reachable, sub-sequence property, counters), not proved; C14_upper_level_unfixed_witness is the kernel-checked witness of the defect fixed in Insert4',
+        trusted=['Lean 4 kernel', 'tools/gofacts translation of the accounting conditions',
+                 'walk of all levels and raw statistics after every sequential operation and every steered concurrent run',
+                 'with Go-managed memory node_frees stays 0 by construction (by-design finding D20): allocs - frees is compared with the number of successful inserts there, and with the node count in user-managed mode'],
+    ),
+    'C15': dict(
+        modules=['NitroVerif.Props.C15'],
+        iruns=[('skipconc', gens.gen_skipconc, 250, 8000)],
+        level='proof',
+        level_text='C15_monotone_partial, C15_research_ge_partial (Next never moves backwards on any of its three paths), C15_seek_ge_partial, C15_seek_no_stable_between are proved for every interleaving on the concurrent model. PARTIAL: whole-scan completeness/presence (C15_complete, C15_present) are not proved; steered schedules with iterators parked on nodes that are deleted (helpDelete success and failure paths) are validated against the model',
+        trusted=['Lean 4 kernel', 'tools/gofacts skeleton of skiplist Iterator.Next', 'steered iterator/insert/delete schedules validated step by step'],
+    ),
+    'C18': dict(
+        modules=['NitroVerif.Props.C18'],
+        runs=[('skipseq', gens.gen_builder, 300, 20000), ('skipseq', gens.gen_merge, 300, 20000)],
+        level='proof',
+        level_text='C18_fill, C18_assemble (any selection of segments, empty ones anywhere, all heights: every level is the concatenation, statistics are sums, WF and ordered-set behaviour afterwards) and C18_merge (SeekFirst/Seek at ANY point reposition at the minimum / minimum >= x and the scan is the sorted merge) proved on the pointer-level heap; the heap-reset of SeekFirst/Seek is regenerated from merger.go',
+        trusted=['Lean 4 kernel', 'tools/gofacts facts mergeSeekFirstResets/mergeSeekResets and skeletons', 'container/heap modelled as a list with extract-min (trusted)',
+                 'differential run: segments filled in interleaved order with scripted levels, assembled, walked on all levels, then used; merges with re-seeks before/during/after a scan'],
+    ),
 }
 
 
